@@ -113,6 +113,16 @@ def flatname(*segs: str) -> str:
     return "_".join(segs)
 
 
+def portkey(port: str, *path: str) -> str:
+    """Unambiguous internal key of a bundle-port leaf (the flattened *name* may be ambiguous: member `a_b` vs `a`.`b`)."""
+    return "\x1f".join((port,) + tuple(path)) if path else port
+
+
+def keyname(key: str) -> str:
+    """The documented flattened name of a port key."""
+    return key.replace("\x1f", "_")
+
+
 # ---------------------------------------------------------------------------------------------------------
 # module interfaces
 
@@ -137,8 +147,11 @@ def flat_ports(design: dict, m: dict) -> List[Tuple[str, int]]:
     out = [(p[0], p[1]) for p in m["ports"]]
     for bp in m.get("bports", []):
         for path, w in bundle_leaves(design, bp[1]):
-            out.append((flatname(bp[0], *path), w))
+            out.append((portkey(bp[0], *path), w))
     return out
+
+
+ELEM_SEP = "_"  # set to "#" (never part of a designer name) when designer names may equal invented ones (C05)
 
 
 def elems(inst: dict) -> List[str]:
@@ -146,9 +159,9 @@ def elems(inst: dict) -> List[str]:
     if k == "single":
         return [inst["name"]]
     if k == "array":
-        return [f"{inst['name']}_{i}" for i in range(inst["n"])]
+        return [f"{inst['name']}{ELEM_SEP}{i}" for i in range(inst["n"])]
     if k == "pair":
-        return [f"{inst['name']}_p", f"{inst['name']}_n"]
+        return [f"{inst['name']}{ELEM_SEP}p", f"{inst['name']}{ELEM_SEP}n"]
     raise ValueError(k)
 
 
@@ -320,7 +333,7 @@ class Local:
             self.referenced.add((e[1], e[2]))
             if inst.get("kind", "single") != "single":
                 raise Invalid("unsupported", "bundle-port reference to an array")
-            return {path: self.t(e[1], flatname(e[2], *path), w) for path, w in bundle_leaves(self.design, bp[e[2]])}
+            return {path: self.t(e[1], portkey(e[2], *path), w) for path, w in bundle_leaves(self.design, bp[e[2]])}
         raise Invalid("width-mismatch", f"{k} is not bundle-valued")
 
     # -- connections
@@ -375,7 +388,7 @@ class Local:
         if e[0] == "nc":
             for el in els:
                 for path, w in leaves:
-                    self.join(self.t(el, flatname(port, *path), w), self.nc_bits(w), what)
+                    self.join(self.t(el, portkey(port, *path), w), self.nc_bits(w), what)
             return
         if not self.is_bundle_expr(e):
             raise Invalid("width-mismatch", f"{what}: signal connected to a bundle port")
@@ -387,7 +400,7 @@ class Local:
                           f"{what}: members {sorted(M.keys())} vs {sorted(want)}")
         for el in els:
             for path, w in leaves:
-                self.join(self.t(el, flatname(port, *path), w), M[path], f"{what}.{'.'.join(path)}")
+                self.join(self.t(el, portkey(port, *path), w), M[path], f"{what}.{'.'.join(path)}")
 
     def _compute(self):
         m = self.m
@@ -406,7 +419,7 @@ class Local:
                     self.terminals.append((el, p, w, inst))
                 for p, b in bp.items():
                     for path, w in bundle_leaves(self.design, b):
-                        self.terminals.append((el, flatname(p, *path), w, inst))
+                        self.terminals.append((el, portkey(p, *path), w, inst))
         for inst in m["insts"]:
             sp, bp = iface(self.design, inst["of"])
             for port, e in inst["conns"].items():
@@ -488,7 +501,7 @@ def flatten(design: dict, top: Optional[str] = None) -> Flat:
                 return (path, L.uf.find(("s", pname, i)))
         for bp in m.get("bports", []):
             for lp, w in bundle_leaves(design, bp[1]):
-                if flatname(bp[0], *lp) == pname:
+                if portkey(bp[0], *lp) == pname:
                     return (path, L.uf.find(("b", bp[0], lp, i)))
         raise KeyError(pname)
 
@@ -512,10 +525,10 @@ def flatten(design: dict, top: Optional[str] = None) -> Flat:
 
     walk(top, ())
     Lt = local(top)
-    out.ports = flat_ports(design, Lt.m)
-    for p, w in out.ports:
+    out.ports = [(keyname(p), w) for p, w in flat_ports(design, Lt.m)]
+    for p, w in flat_ports(design, Lt.m):
         for i in range(w):
-            g.union(("P", p, i), portnode(Lt, (), p, i))
+            g.union(("P", keyname(p), i), portnode(Lt, (), p, i))
     groups: Dict[Any, set] = {}
     for node in list(g.p.keys()):
         if node[0] in ("L", "P"):
